@@ -2007,7 +2007,15 @@ impl StorageEngine {
             // Same shard - simple case
             let mut shard_guard = old_shard.write().unwrap();
             if let Some(stored_value) = shard_guard.data.remove(old_key) {
+                // The TTL travels with the value: move the expiry-index entry as well
+                shard_guard.expiring_keys.remove(old_key);
+                shard_guard.expiring_keys.remove(&new_key);
+                if let Some(expires_at) = stored_value.metadata.expires_at {
+                    shard_guard.expiring_keys.insert(new_key.clone(), expires_at);
+                }
                 shard_guard.data.insert(new_key.clone(), stored_value);
+                // Both names changed as far as WATCH is concerned
+                shard_guard.mark_modified(old_key);
                 shard_guard.mark_modified(&new_key);
                 Ok(())
             } else {
@@ -2032,7 +2040,15 @@ impl StorageEngine {
             
             // Move the value between shards
             if let Some(stored_value) = old_guard.data.remove(old_key) {
+                // The TTL travels with the value: move the expiry-index entry as well
+                old_guard.expiring_keys.remove(old_key);
+                new_guard.expiring_keys.remove(&new_key);
+                if let Some(expires_at) = stored_value.metadata.expires_at {
+                    new_guard.expiring_keys.insert(new_key.clone(), expires_at);
+                }
                 new_guard.data.insert(new_key.clone(), stored_value);
+                // Both names changed as far as WATCH is concerned
+                old_guard.mark_modified(old_key);
                 new_guard.mark_modified(&new_key);
                 Ok(())
             } else {
